@@ -1058,6 +1058,15 @@ func (st *Runtime) evalMultiplicativeExpression(node *MultiplicativeExprNode) re
 			node.Left.errorf("a non numeric value in multiplicative expression")
 		}
 	case itemMod:
+		if isInt(kind) || isFloat(kind) {
+			if toInt(right) == 0 {
+				node.Right.errorf("modulo by zero")
+			}
+		} else if isUint(kind) {
+			if toUint(right) == 0 {
+				node.Right.errorf("modulo by zero")
+			}
+		}
 		if isInt(kind) {
 			left = reflect.ValueOf(left.Int() % toInt(right))
 		} else if isFloat(kind) {
